@@ -581,9 +581,9 @@ def check_C10(run):
           dict(ks=1, bloom='tiny', group=3, rt='mt', wait=True), dict(ks=4, bloom='small', group=2, rt='mt', wait=False),
           dict(ks=4, bloom='default', group=2, rt='mt', wait=True)]
     suites = [
-        dict(name='filt-2k', consts=dict(Keys='{1, 2}', MaxTs='1', OffloadLevels='{0, 1, 2}'), genlen=5 if q else 6,
+        dict(name='filt-2k', consts=dict(Keys='{1, 2}', MaxTs='1', OffloadLevels='{0, 1, 2}'), genlen=5,
              acts=['write', 'delete', 'close_active', 'restore_active', 'offload', 'restart'],
-             restarts_set=store.restarts(gs=(True,), dmgs=('keep', 'lose')), nkeys=2, sample=(1, 30) if q else (1, 3)),
+             restarts_set=store.restarts(gs=(True,), dmgs=('keep', 'lose')), nkeys=2, sample=(1, 30) if q else (1, 6)),
         dict(name='sim', consts=dict(Keys='{1, 2, 3, 4}', MaxTs='2', OffloadLevels='{0, 1, 2, 3}'), genlen=40,
              acts=['write', 'delete', 'close_active', 'restore_active', 'create_active', 'force_update', 'offload', 'restart', 'free_excess'],
              restarts_set=store.restarts(dmgs=('keep', 'lose')), nkeys=4, simulate=250 if q else 4000, workers=1 if q else 8),
